@@ -327,7 +327,7 @@ def handshake_sock(**kw):
     return sock
 
 
-PRELUDES = ["fresh", "connected", "reused", "reused-midmessage", "reused-midframe", "after-send_close"]
+PRELUDES = ["fresh", "connected", "reused", "reused-midmessage", "reused-midframe", "after-send_close", "mid-own-message"]
 
 
 def prepared_ws(prelude, **kw):
@@ -338,6 +338,8 @@ def prepared_ws(prelude, **kw):
       reused*            the same WebSocket object had an earlier life - connected, used, close()d - and is connected again; in the
                          -midmessage / -midframe variants the first connection was closed while a fragmented message / a frame was
                          incomplete. Nothing of the first life may matter for the second connection.
+      mid-own-message    the application is in the middle of SENDING a fragmented message of its own (a non-final frame written with
+                         send_frame, the final one not yet): receiving is independent of that
       after-send_close   the application already sent its close frame (RFC 6455 5.5.2: a ping is answered unless a close frame was
                          *received*; data keeps being delivered until the peer's close arrives)
     """
@@ -365,6 +367,8 @@ def prepared_ws(prelude, **kw):
     ws.connect("ws://example.com/chat", socket=sock)
     if prelude == "after-send_close":
         ws.send_close()
+    if prelude == "mid-own-message":
+        ws.send_frame(lib.websocket.ABNF.create_frame("part one, ", lib.websocket.ABNF.OPCODE_TEXT, 0))
     del sock.stream[sock.cursor:]
     sock.log = []
     sock.written = bytearray()
